@@ -13,6 +13,7 @@ import hashlib
 import importlib
 import json
 import os
+import signal
 import sys
 import time
 import traceback
@@ -34,6 +35,10 @@ def _jsonable(o):
     if isinstance(o, bytes):
         return {"__bytes__": o.hex()}
     return repr(o)
+
+
+def _replay_timeout(signum, frame):
+    raise env.StepTimeout()
 
 
 def write_replay(pid: str, viol: dict) -> str:
@@ -139,7 +144,15 @@ def main(argv=None) -> int:
             if hasattr(mod, "replay") and os.environ.get("VERIF_NO_RECHECK") != "1":
                 try:
                     env.install_watchdog()
-                    again = mod.replay(json.loads(json.dumps(_jsonable(v))))
+                    # CPU-time limit on a timer of its own (the per-step watchdogs inside use ITIMER_REAL)
+                    signal.signal(signal.SIGVTALRM, _replay_timeout)
+                    signal.setitimer(signal.ITIMER_VIRTUAL, float(os.environ.get("VERIF_REPLAY_TIMEOUT", "600")))
+                    try:
+                        again = mod.replay(json.loads(json.dumps(_jsonable(v))))
+                    finally:
+                        signal.setitimer(signal.ITIMER_VIRTUAL, 0)
+                except env.StepTimeout:
+                    again = "error: re-executing the counterexample did not terminate"
                 except Exception:
                     again = "error:" + traceback.format_exc()
                 if again is None and any(w in key for w in ("nonterm", "hang", "timeout")):
